@@ -7,11 +7,11 @@ package c09
 
 import (
 	"bytes"
-	"os"
 	"encoding/binary"
 	"encoding/json"
 	"fmt"
 	"net"
+	"os"
 	"sort"
 	"sync"
 	"time"
@@ -693,7 +693,6 @@ func runIdle(c *fw.Ctx) {
 	sort.Ints(nil)
 	_ = json.Marshal
 }
-
 
 func replay(c *fw.Ctx, raw json.RawMessage) {
 	var w struct {
